@@ -430,6 +430,7 @@ class Driver:
             "nready": p._ready_batches.qsize() if p is not None and hasattr(p, "_ready_batches") else 0,
             "running": bool(getattr(p, "_running", False)) if p else False,
             "exception": bool(getattr(p, "_exception", False)) if p else False,
+            "nb_consumed": getattr(p, "_nb_consumed", 0) if p else 0,
             "submitted": call_batches,
             "trk_ids": trk_ids,
             "reentered": bool(cur.reentered) if cur else False,
@@ -779,7 +780,21 @@ class Driver:
                     self.ev_dispatch(["dispatch", self.rng.choice(bsizes)])
             elif k == "cb":
                 tid = self.rng.choice(infl) if self.rng.random() < 0.5 else infl[0]
-                if timeout_case and self.rng.random() < 0.7:
+                if timeout_case and self.case.get("avoid_control"):
+                    # bias (reads internals, decides nothing): leave the job the unordered retrieval loop watches for its
+                    # time-out pending and complete the others, so that the same job is watched again much later
+                    try:
+                        ctl = next(iter(self.par._jobs_set), None)
+                        ctl_tid = None
+                        for i, b in enumerate(self.backend.batches):
+                            if b["cb"] is ctl:
+                                ctl_tid = self.trk_of_batch[i]
+                        others = [t for t in infl if t != ctl_tid]
+                        if others:
+                            tid = self.rng.choice(others)
+                    except Exception:
+                        pass
+                elif timeout_case and self.rng.random() < 0.7:
                     # bias (reads internals, decides nothing): complete the job the unordered retrieval loop
                     # would pick as its timeout-control job
                     try:
